@@ -854,6 +854,8 @@ func (in *Interp) apply(fn *Closure, args []Value, caller *Frame) Value {
 func (in *Interp) forLoop(n *Node, f *Frame) (Value, ctl) {
 	cond := n.K[0]
 	var last Value = Nil
+	var pre *Value // the right-hand side of `for v = rhs` already evaluated while finding out the loop form
+	preName := ""
 	// run one iteration of the body; returns (stop?, value, ctl)
 	body := func() (bool, Value, ctl) {
 		v, c := in.block(n.Body, f)
@@ -950,13 +952,25 @@ func (in *Interp) forLoop(n *Node, f *Frame) (Value, ctl) {
 			}
 			return last, cNone
 		}
-		// anything else: the assignment is an ordinary condition expression (evaluated each time)
+		// anything else: the assignment is an ordinary condition expression, evaluated once per test of the condition
+		// (the value just computed is the first one: the right-hand side is not evaluated a second time - the
+		// implementation does, known finding C01-K1)
+		pre = &v
+		preName = t.Name
 	}
 	for iter := 0; ; iter++ {
 		if iter > 100000 {
 			return in.unsup("long loop"), cNone
 		}
-		c := in.ev(cond, f)
+		var c Value
+		if iter == 0 && pre != nil {
+			if r := in.assign(f, preName, *pre, false); r.IsErr() {
+				return r, cNone
+			}
+			c = *pre
+		} else {
+			c = in.ev(cond, f)
+		}
 		switch {
 		case c.IsErr():
 			return c, cNone
